@@ -913,6 +913,44 @@ example :
     hostsWire db ["10".toList, "2".toList, "0".toList, "192".toList, "IN-ADDR".toList, "arpa".toList] 12 = .next := by
   decide
 
+/-- **The decoded continuation of a wire-born request sees what a decoded
+request would have seen.** For every well-formed strict-path query `m`, the
+handler behind edns that materializes the request reads — on the wire-born
+request (`Request.materialize` + `Chain.detachStrictContext`) exactly as on the
+message-born one (`SetEdns0` in the decoded body) — the same id, flag word and
+question, the same normalized OPT (one OPT, advertised size, DO forced, version
+0, every client option stripped) and the same client-subnet marker on its
+context (so the shared RFC 8020 / 8198 state is bypassed or not on both alike);
+a version other than 0 is BADVERS on both before any handler behind edns runs. -/
+theorem continuation_wire_eq_msg (m : SMsg) (hwf : m.WF) : contWire (factsOf m) = contMsg m := by
+  have hop : (m.flags >>> 11) % 2 ^ 4 = 0 := hwf.opcode0
+  have hop' : ((m.flags >>> 11) &&& 0xF == 0) = true := by
+    have := Nat.and_two_pow_sub_one_eq_mod (m.flags >>> 11) 4
+    rw [show (0xF : Nat) = 2 ^ 4 - 1 from rfl, this, hop]; rfl
+  unfold contWire contMsg ednsWireBranch
+  cases hopt : m.opt with
+  | none => simp [factsOf, hopt, hop, hop']
+  | some o =>
+    by_cases hv : o.version = 0
+    · simp [factsOf, hopt, hop, hop', optFactsOf, hv]
+    · have hv' : (o.version == 0) = false := by simpa using hv
+      simp [factsOf, hopt, hop, hop', optFactsOf, hv, hv']
+
+/-- … stated on the packet: for whatever `ParseWire` admits, the continuation behind the
+wire branch is the continuation of the decoded entry for the same packet. -/
+theorem admitted_packet_same_continuation (raw : Bytes) (f : Facts) (hb : ∀ x ∈ raw, x < 256) (h : parseWire raw = some f) :
+    ∃ m : SMsg, m.WF ∧ m.encode = raw ∧ contWire f = contMsg m := by
+  obtain ⟨m, hwf, henc, hf⟩ := parseWire_refines_spec raw f hb h
+  exact ⟨m, hwf, henc, hf ▸ continuation_wire_eq_msg m hwf⟩
+
+-- non-vacuity: a query with a client-subnet option and a cookie: marker set, options gone, DO forced
+def exampleECSQuery : SMsg :=
+  { id := 7, flags := 0x0100, labels := [[119]], qtype := 1, qclass := 1,
+    opt := some { udpSize := 4096, version := 0, zflags := 0, options := [⟨10, [1, 2, 3, 4, 5, 6, 7, 8]⟩, ⟨8, [0, 1, 24, 0, 198, 51, 100]⟩] } }
+example : contMsg exampleECSQuery =
+    .seen { ecsMarker := true, id := 7, flags := 0x0100, labels := [[119]], qtype := 1, qclass := 1, optUDPSize := 1232, optDO := true,
+            optVersion := 0, optOptions := 0 } := by decide
+
 /-! ## 6. Facts regenerated from the tree (one-directional side conditions) -/
 
 /-- The real `ApplyReply` / `ClearAD`, evaluated on every single-bit word (and
